@@ -55,10 +55,17 @@ func genBytes(r *vh.Rng, big bool) []byte {
 	return r.Bytes(n)
 }
 
+// genText: texts are byte strings on the wire; half of them are arbitrary bytes (not valid UTF-8:
+// lone continuation bytes, truncated sequences, 0xff, NUL), the rest lower-case ASCII
 func genText(r *vh.Rng, big bool) string {
 	b := genBytes(r, big)
-	for i := range b {
-		b[i] = 'a' + b[i]%26
+	switch {
+	case r.Chance(50):
+		for i := range b {
+			b[i] = 'a' + b[i]%26
+		}
+	case r.Chance(30) && len(b) > 0:
+		copy(b, []byte{0xff, 0x80, 0xc3, 0x28, 0xe2, 0x82, 0x00, 0xed, 0xa0, 0x80, 0xf8})
 	}
 	return string(b)
 }
